@@ -154,6 +154,12 @@ func enumerateB(e *common.Enum) {
 					ed := edit{S: s, E: en, Text: r}
 					key := fmt.Sprintf("B1:d%d:%d,%d-%d,%d:r%d", di, s.L, s.C, en.L, en.C, ri)
 					e.Do(key, func(c *common.Ctx) { runB(c, d, ed) })
+					// the same edit with the deprecated rangeLength member (consistent with the range), where the span is not empty
+					if inContract(d, ed) && less(s, en) {
+						edl := ed
+						edl.WithLen = true
+						e.Do(key+":len", func(c *common.Ctx) { runB(c, d, edl) })
+					}
 				}
 			}
 		}
